@@ -51,6 +51,21 @@ Theorem utf8_without_bom_untouched : forall s,
   starts_with bom_bytes s = false -> pipeline (Some "utf-8"%string) s = Ok s.
 Proof. exact utf8_without_bom_untouched. Qed.
 
+(* A mark split across reads: StripBOM reads its first rune through bufio.Reader, which keeps
+   calling the source until four bytes or a full rune are buffered (model: fill_until, with
+   utf8.FullRune transcribed).  For EVERY way the source cuts the stream into pieces - one byte
+   at a time, the mark cut after its first or second byte, empty reads in between - the result
+   is that of stripping the concatenated stream; so the pipeline result does not depend on the
+   pieces in which the decoded stream arrives. *)
+Theorem bom_split_across_reads : forall pieces : list bytes,
+  strip_bom_pieces pieces = strip_bom (List.concat pieces).
+Proof. exact strip_bom_pieces_spec. Qed.
+
+Theorem pipeline_split_invariant : forall e input pieces,
+  List.concat pieces = decode_with (dec_of e) input ->
+  Ok (strip_bom_pieces pieces) = pipeline (Some (enc_name e)) input.
+Proof. exact pipeline_split_invariant. Qed.
+
 (* Under a code page the stripping stage is the identity: the result is the standard
    conversion of the whole input (input bytes EF BB BF are the three characters U+00EF U+00BB
    U+00BF, not a mark). *)
@@ -93,6 +108,12 @@ Example c18_bom_instances :
   pipeline None (hx "efbbbfefbbbf41") = Ok (hx "efbbbf41") /\
   pipeline None (hx "efbb41") = Ok (hx "efbb41") /\
   pipeline (Some "iso-8859-1"%string) (hx "efbbbf41") = Ok (hx "c3afc2bbc2bf41").
+Proof. vm_compute. repeat split; reflexivity. Qed.
+
+Example c18_split_instance :
+  strip_bom_pieces [hx "ef"; []; hx "bb"; hx "bf41"; hx "42"] = hx "4142" /\
+  strip_bom_pieces [hx "ef"; hx "bb"; hx "41"] = hx "efbb41" /\
+  fill_until [] [hx "ef"; hx "bb"; hx "bf41"; hx "42"] = (hx "efbbbf41", [hx "42"]).
 Proof. vm_compute. repeat split; reflexivity. Qed.
 
 Example c18_extracted_facts :
